@@ -56,6 +56,9 @@ _MOLDEF = {
     "H2_uhf": dict(xyz=[("H", (0., 0., 0.)), ("H", (0., 0., 1.2))], q=0, spin=0, uhf=True),
     "H2-_uhf": dict(xyz=[("H", (0., 0., 0.)), ("H", (0., 0., 0.9))], q=-1, spin=1, uhf=True),
     "H4+_uhf": dict(xyz=_H4_XYZ, q=1, spin=1, uhf=True),
+    # open-shell UHF with frozen occupied sets that are non-empty AND different per spin (alpha {0,1}, beta {0}; beta also
+    # freezes virtual 3): 2 active orbitals per spin, (1, 1) active electrons, 4 qubits
+    "H4-_uhf_fz": dict(xyz=_H4_XYZ, q=-1, spin=1, uhf=True, frozen=[[0, 1], [0, 3]]),
 }
 _mols = {}
 
@@ -618,6 +621,7 @@ def judge_sample(chk, s, verdict, rec, lam_min=None):
         chk.inconclusive += 1
         return ok
     Eplain = contract(s.hterms, rec["e"], 0, M) / nrm
+    s.Eplain = float(Eplain.real)
     s.ovsum = float(sum(to_complex(o, M).real for o in rec["ov"]))
     Eexp = Eplain + DEFL_COEFF * sum(to_complex(o, M) for o in rec["ov"])
     s.Eexp = float(Eexp.real)
@@ -1003,8 +1007,10 @@ def replay_history(cfg, st, v, holder, hist, H0terms, state):
                 state["opt"] = t
                 state["optcirc"] = [(g.name, tuple(g.target), tuple(g.control or ()), g.parameter) for g in v.optimal_circuit]
             elif kind == "rdm":
-                v.get_rdm(th, **kw)
-                val = want = None
+                # first-class action: after ANY history the RDMs are those of the requested vector
+                # (energy_from_rdms(get_rdm(theta_t)) = exact plain energy of theta_t; C13 judges the tensors themselves)
+                g1, g2 = v.get_rdm(th, **kw)
+                val, want = float(molecule(cfg["mol"]).energy_from_rdms(np.array(g1), np.array(g2))), st.plain.get(t)
         except Exception as e:
             return x, "%s(%s, t=%s) raised %s: %s" % (kind, op, t, type(e).__name__, e)
         if kind != "opexpcur":
@@ -1035,6 +1041,7 @@ def g_part(chk, st, hists, tag):
         chk.inconclusive += 1
         return
     st.symtable = {}
+    st.plain = {t: getattr(s, "Eplain", None) for t, s in enumerate(st.samples)} if not (cfg["penalty"] or cfg["qham"]) else {}
     for t, s in enumerate(st.samples):
         for w in SYM:
             e = getattr(s, "symexact", {}).get(w)
